@@ -57,10 +57,24 @@ class Table:
         setup_kinds()
         s.repo = repo
         s.I = Interp(repo)
+        s.I.hooks["lib"] = s._lib
         s.memo = {}
         s.events = {}
         s.reads = {}      # (name, iscsd) -> set of data keys / cells read
         s._stack = []
+
+    @staticmethod
+    def _lib(I, name, args, kw, st, n):
+        """per-bin arrays are carried at a generic bin: an array allocated over the bins (length nf) is its fill value."""
+        if name in ("numpy.ones", "numpy.zeros", "numpy.empty", "numpy.full") and args:
+            a0 = args[0]
+            a0 = a0[0] if isinstance(a0, tuple) and len(a0) == 1 else a0
+            if isinstance(a0, X) and a0.eq(X.var("nf")):
+                if name == "numpy.ones": return True if _is_bool(kw.get("dtype")) else X.const(1)
+                if name == "numpy.zeros": return False if _is_bool(kw.get("dtype")) else X.const(0)
+                if name == "numpy.full" and len(args) > 1: return args[1]
+                return LocalArr("uninitialised", (X.var("nf"),), None)       # np.empty: whatever the heap held
+        return NotImplemented
 
     def _self_obj(s, iscsd):
         data = Obj("data")
@@ -128,6 +142,10 @@ class Table:
             s._stack.pop()
         s.memo[k] = val
         return val
+
+
+def _is_bool(d):
+    return (isinstance(d, Lib) and d.name in ("builtins.bool", "numpy.bool_", "numpy.bool")) or d is bool
 
 
 class _Busy:
